@@ -89,12 +89,19 @@ impl Cfg {
 
 const WORDS: &[&str] = &[
     "a", "b", "x", "y", "abc", "val", "name", "tmp", "x1", "col_2", "ds", "lib", "foo", "bar", "k",
-    "data", "set", "run", "var", "w", "zz", "Abc", "X",
+    "data", "set", "run", "var", "w", "zz", "Abc", "X", "Zip", "Zone", "allvar", "nulldataset", "corresponding", "Q",
+    "abcdefghijklmnopqrstuvwxyzabcdefg", "v234567890123456789012345678901234567890123456789012345678901234",
 ];
 const UWORDS: &[&str] = &["é1", "дата", "名前", "ünï"];
-const MNAMES: &[&str] = &["m1", "mac_a", "u2x", "do_it", "calc1", "m_2", "util9", "x_y"];
+const MNAMES: &[&str] = &[
+    "m1", "mac_a", "u2x", "do_it", "calc1", "m_2", "util9", "x_y", "Zap", "zed_1", "Q", "mbcdefghijklmnopqrstuvwxyzabcdefg",
+    "n234567890123456789012345678901234567890123456789012345678901234",
+];
 const FUNCS: &[&str] = &["sum", "max", "cats", "putn", "inputn", "today", "substr"];
-const LABELS: &[&str] = &["lbl1", "out_1", "skip2", "l_x"];
+const LABELS: &[&str] = &[
+    "lbl1", "out_1", "skip2", "l_x", "Zlab", "lbcdefghijklmnopqrstuvwxyzabcdefg", "l2345678901234567890123456789012",
+    "l234567890123456789012345678901234567890123456789012345678901234",
+];
 
 const MNEMONIC_OPS: &[(&str, TokenType)] = &[
     ("eq", TokenType::KwEQ),
